@@ -22,3 +22,8 @@ package stats
 //@ func FromContext
 //@   trusted
 //@   ensures result != nil
+//@ func (Statser).NewTimer
+//@   trusted
+//@   ensures result != nil
+//@ func (*Timer).SendGauge
+//@   trusted
